@@ -309,6 +309,123 @@ def explore(s, suppress: bool, max_len=9, max_ticks=5):
 
 
 # ---------------------------------------------------------------------------------------------
+# end-to-end: the statement inside a function, followed by an observable call, through
+# fixes.delete_unreachable_code; both versions executed under every script of the unknowns
+
+E2E = '''
+def f():
+    for _w in (0, 1):
+{body}
+        after()
+    return 7
+'''
+
+
+def behaviours(src, suppress: bool, max_len=8, max_ticks=4):
+    """set of (calls observed, result) over all scripts; None when the source does not compile"""
+    try:
+        code = compile(src, "<prog>", "exec")
+    except SyntaxError:
+        return None
+    seen = set()
+    stack = [[]]
+    while stack:
+        script = stack.pop()
+        pos = [0]
+        ticks = [0]
+        log = []
+
+        def draw():
+            if pos[0] >= len(script):
+                raise _Exhausted()
+            v = script[pos[0]]
+            pos[0] += 1
+            return v
+
+        def c():
+            return bool(draw())
+
+        def g():
+            log.append("g")
+            if draw():
+                raise _E()
+
+        def it():
+            return [0] * (draw() + draw())
+
+        def tick():
+            ticks[0] += 1
+            if ticks[0] > max_ticks:
+                raise _Diverge()
+
+        def after():
+            log.append("after")
+
+        class cm:
+            def __enter__(self):
+                return self
+
+            def __exit__(self, et, ev, tb):
+                if et is not None and issubclass(et, _E) and suppress:
+                    return bool(draw())
+                return False
+
+        env = {"c": c, "g": g, "it": it, "tick": tick, "cm": cm, "E": _E, "after": after}
+        exec(code, env)
+        try:
+            r = env["f"]()
+            seen.add((tuple(log), repr(r)))
+        except _Exhausted:
+            if len(script) < max_len:
+                stack.append(script + [0])
+                stack.append(script + [1])
+        except _Diverge:
+            pass
+        except (_E, AssertionError):
+            seen.add((tuple(log), "E"))
+    return seen
+
+
+def has_with(s) -> bool:
+    if isinstance(s, tuple):
+        return s[0] == "with" or any(has_with(x) for x in s[1:])
+    if isinstance(s, list):
+        return any(has_with(x) for x in s)
+    return False
+
+
+def flow_end_to_end(run, mods, shapes):
+    fixes, core = mods["fixes"], mods["core"]
+    fails, known, n, n_rw = [], [], 0, 0
+    for s in shapes:
+        src = E2E.format(body=s_text(s, 2, tick=True))
+        core.parse.cache_clear()
+        with common.quiet():
+            try:
+                out = fixes.delete_unreachable_code(src)
+            except Exception as exc:  # noqa
+                fails.append({"stmt": src, "problem": f"delete_unreachable_code raised {type(exc).__name__}: {exc}"})
+                continue
+        n += 1
+        if out == src:
+            continue
+        n_rw += 1
+        for sup in (False, True):
+            if sup and not has_with(s):
+                continue
+            b1, b2 = behaviours(src, sup), behaviours(out, sup)
+            if b2 is None:
+                fails.append({"stmt": src, "after": out, "problem": "output does not compile"})
+                break
+            if b1 != b2:
+                rec = {"stmt": src, "after": out, "suppress": sup,
+                       "only_before": sorted(map(repr, b1 - b2))[:3], "only_after": sorted(map(repr, b2 - b1))[:3]}
+                (known if sup else fails).append(rec)
+                break
+    return fails, known, n, n_rw
+
+
+# ---------------------------------------------------------------------------------------------
 
 
 def model_eval(wd, stmts, tag):
@@ -394,6 +511,12 @@ def check(run: common.Run):
         elif flags[0] and "N" in obs1:
             known_hits.append({"stmt": src, "observed": sorted(obs1)})
 
+    # ---- end to end through delete_unreachable_code (deterministic slice of the exhaustive shapes)
+    cand = [s for s, m in zip(stmts[:n_exh], model[:n_exh]) if any(m["flags"][:3])]
+    step = 9 if run.tier == "quick" else 1
+    e2e_fail, e2e_known, n_e2e, n_e2e_rw = flow_end_to_end(run, mods, cand[::step])
+    known_hits += [{"stmt": k["stmt"], "observed": k["only_after"]} for k in e2e_known]
+
     # ---- known findings
     kf = common.load_findings(PID)
     for f in kf:
@@ -409,11 +532,15 @@ def check(run: common.Run):
         run.violation({"kind": "property-oracle", "site": "core.is_blocking", **pf,
                        "explanation": "is_blocking(stmt) is True but an execution of the statement completes "
                                       "normally (the statement after it is reachable)"}, True)
+    for ef in e2e_fail[:4]:
+        run.violation({"kind": "property-oracle", "site": "fixes.delete_unreachable_code", **ef,
+                       "explanation": "the function behaves differently after delete_unreachable_code (calls observed "
+                                      "/ result, over every script of the unknown tests, iterables and calls)"}, True)
     for kh in known_hits[:3]:
         run.violation({"kind": "property-oracle", "site": "core.is_blocking", **kh,
                        "explanation": "blocking although a suppressing context manager lets execution continue; "
                                       "not a listed finding"}, True)
-    if not prop_fail:
+    if not prop_fail and not e2e_fail:
         for d in disagreements[:5]:
             run.violation({"kind": "correspondence", "kernel": "K5 FlowModel.is_blocking/may_leave", **d,
                            "explanation": "model and implementation disagree; no execution contradicting the "
@@ -441,6 +568,7 @@ def check(run: common.Run):
         exhaustive=False, exhaustive_part=n_exh, random_part=len(stmts) - n_exh, histogram=dict(hist),
         correspondence_disagreements=len(disagreements), semantics_violations=len(sem_bad),
         property_oracle_failures=len(prop_fail), model_imprecision_N=imprecise,
+        e2e_unreachable_cases=n_e2e, e2e_unreachable_rewritten=n_e2e_rw, e2e_unreachable_failures=len(e2e_fail),
         trusted_base=common.TRUSTED_BASE_COMMON + [
             "FlowModel.outcomes is a definition (reference semantics); validated on every run against CPython by "
             "exhaustive path exploration of each enumerated shape (observed outcomes must be allowed by it)",
